@@ -17,8 +17,8 @@ from .flow import gather_params
 # atoms that legitimately *widen* a declaration although an operand is not flagged integral
 ESCAPE_ATOMS = {
     'z == f': 'the public factor is an int (scaled by 2^f exactly), set only when b is not a secure object',
-    'b >= f': 'left shift by at least f bits clears all fractional bits',
-    'bool(np.all(b >= f))': 'left shift by at least f bits (elementwise) clears all fractional bits',
+    'f <= b': 'left shift by at least f bits clears all fractional bits',
+    'bool(np.all(f <= b))': 'left shift by at least f bits (elementwise) clears all fractional bits',
     'isinstance(y[0], int)': 'public int vector: integral by type',
 }
 # operands that are gathered but whose flag deliberately does not enter the declaration
@@ -43,6 +43,21 @@ TRUE_BY_CONSTRUCTION = {
     'random::random_unit_vector': 'secure bits from random_bits (declared integral) combined by secure operators only',
     'random::np_random_unit_vector': 'secure bits from np_random_bits (declared integral) combined by secure operators only',
 }
+
+
+class _FracSym(ast.NodeTransformer):
+    """Every `<chain>.frac_length` denotes the number of fractional bits f of the type at hand."""
+
+    def visit_Attribute(self, n):
+        if n.attr == 'frac_length':
+            return ast.copy_location(ast.Name(id='f', ctx=ast.Load()), n)
+        return self.generic_visit(n)
+
+
+def fnorm(e):
+    """Normalised text with the fractional-bit count written as the symbol f."""
+    import copy
+    return norm(_FracSym().visit(copy.deepcopy(e)))
 
 
 # ---------------------------------------------------------------------------------- formulas
@@ -79,7 +94,7 @@ class FlagFormula:
 
     def _build(self, e):
         if self.depth > 12:
-            return atom(norm(e))
+            return atom(fnorm(e))
         if isinstance(e, ast.Constant) and isinstance(e.value, bool):
             return ('const', e.value)
         if isinstance(e, ast.BoolOp):
@@ -107,7 +122,7 @@ class FlagFormula:
                         it = v.generators[0].iter
                         if isinstance(it, ast.Name):
                             return atom(it.id + '.integral')
-        if isinstance(e, ast.Call) and isinstance(e.func, ast.Name) and e.func.id == 'bool' and len(e.args) == 1 and norm(e) not in ESCAPE_ATOMS:
+        if isinstance(e, ast.Call) and isinstance(e.func, ast.Name) and e.func.id == 'bool' and len(e.args) == 1 and fnorm(e) not in ESCAPE_ATOMS:
             return self.build(e.args[0])
         if isinstance(e, ast.Call) and isinstance(e.func, ast.Name) and len(e.args) == 1 and isinstance(e.args[0], ast.Name):
             # local helper applied to a parameter whose body inspects .integral (np_block)
@@ -146,8 +161,8 @@ class FlagFormula:
                 return ('or', outs)
             return atom(e.id)
         if isinstance(e, ast.Compare) and len(e.ops) == 1 and isinstance(e.ops[0], ast.NotEq):
-            return ('not', atom(norm(ast.Compare(left=e.left, ops=[ast.Eq()], comparators=e.comparators))))
-        return atom(norm(e))
+            return ('not', atom(fnorm(ast.Compare(left=e.left, ops=[ast.Eq()], comparators=e.comparators))))
+        return atom(fnorm(e))
 
 
 def atoms_of(f, out=None):
@@ -300,7 +315,7 @@ def rule_FX2(ctx, rep):
         n += 1
         shifts = [s for s in iter_nodes(fn.node) if (isinstance(s, ast.AugAssign) and isinstance(s.op, ast.LShift)) or
                   (isinstance(s, ast.BinOp) and isinstance(s.op, ast.LShift) and isinstance(pm.get(id(s)), ast.Return))]
-        shifts = [s for s in shifts if 'frac_length' in norm(s) or norm(s.value if isinstance(s, ast.AugAssign) else s.right) in ('f',)]
+        shifts = [s for s in shifts if 'frac_length' in norm(s) or fnorm(s.value if isinstance(s, ast.AugAssign) else s.right) in ('f',)]
         if shifts:
             rep.ok('FX2', fn, lits[0][0], f'declared integral; result scaled by 2^f ({norm(shifts[-1])})')
         elif k in TRUE_BY_CONSTRUCTION:
@@ -325,9 +340,10 @@ def rule_FX3(ctx, rep):
         pm = parents(fn.node)
         shifts, truncs = [], []
         for s in iter_nodes(fn.node):
-            if isinstance(s, ast.AugAssign) and isinstance(s.op, ast.RShift) and 'f' in {x.id for x in ast.walk(s.value) if isinstance(x, ast.Name)}:
+            if isinstance(s, ast.AugAssign) and isinstance(s.op, ast.RShift) and \
+                    ('f' in {x.id for x in ast.walk(s.value) if isinstance(x, ast.Name)} or 'frac_length' in norm(s.value)):
                 shifts.append(s)
-            if isinstance(s, ast.Assign) and isinstance(s.value, ast.BinOp) and isinstance(s.value.op, ast.RShift) and norm(s.value.right) == 'f':
+            if isinstance(s, ast.Assign) and isinstance(s.value, ast.BinOp) and isinstance(s.value.op, ast.RShift) and fnorm(s.value.right) == 'f':
                 shifts.append(s)
         for c in iter_nodes(fn.node):
             if isinstance(c, ast.Call) and attr_tail(c.func) in ('trunc', 'np_trunc'):
@@ -385,11 +401,11 @@ def rule_FX3(ctx, rep):
         if not (both or neither or unlicensed):
             rep.ok('FX3', fn, shifts[0], f'exact shift iff a factor is integral, truncation otherwise (atoms: {", ".join(ats)})')
         # same amount on both paths
-        amt_s = {norm(s.value if isinstance(s, ast.AugAssign) else s.value.right) for s in shifts}
+        amt_s = {fnorm(s.value if isinstance(s, ast.AugAssign) else s.value.right) for s in shifts}
         amt_t = set()
         for t in truncs:
             kw = [k.value for k in t.keywords if k.arg == 'f']
-            amt_t.add(norm(kw[0]) if kw else 'f')
+            amt_t.add(fnorm(kw[0]) if kw else 'f')
         if amt_s == amt_t or (amt_s == {'f'} and amt_t == {'f'}):
             rep.ok('FX3', fn, truncs[0], f'both paths remove {sorted(amt_s)[0]} fractional bits')
         else:
@@ -407,6 +423,32 @@ def rule_FX4(ctx, rep):
         if fn.module not in ('runtime', 'sectypes', 'secgroups', 'seclists', 'statistics', 'random', 'secpols'):
             continue
         pm = None
+        # names whose value ends up in a declared / stored flag (not names that merely steer a branch)
+        sinks = set()
+        src = norm(fn.node)
+        if 'integral' not in src:
+            continue
+        pmx = parents(fn.node)
+        for c, e, st in _declarations(fn, pmx):
+            sinks |= {x.id for x in ast.walk(e) if isinstance(x, ast.Name)}
+        for x in iter_nodes(fn.node):
+            if isinstance(x, ast.keyword) and x.arg == 'integral':
+                sinks |= {y.id for y in ast.walk(x.value) if isinstance(y, ast.Name)}
+            if isinstance(x, ast.Assign) and isinstance(x.targets[0], ast.Attribute) and x.targets[0].attr == 'integral':
+                sinks |= {y.id for y in ast.walk(x.value) if isinstance(y, ast.Name)}
+            if isinstance(x, ast.Return) and x.value is not None and 'integral' in norm(x.value):
+                sinks |= {y.id for y in ast.walk(x.value) if isinstance(y, ast.Name)}
+        changed = True
+        while changed:
+            changed = False
+            for nm in list(sinks):
+                for st, v, how in definitions(fn.node, nm):
+                    if v is None:
+                        continue
+                    new = {y.id for y in ast.walk(v) if isinstance(y, ast.Name)} - sinks
+                    if new:
+                        sinks |= new
+                        changed = True
         for s in iter_nodes(fn.node):
             tgt = None
             val = None
@@ -415,7 +457,10 @@ def rule_FX4(ctx, rep):
                 b = t
                 while isinstance(b, ast.Subscript):
                     b = b.value
-                if isinstance(b, ast.Name) and 'integral' in b.id:
+                if isinstance(b, ast.Name) and b.id in sinks and any((isinstance(y, ast.Attribute) and y.attr == 'integral') or
+                                                                     (isinstance(y, ast.Name) and 'integral' in y.id) for y in ast.walk(s.value)):
+                    tgt, val = b.id, s.value
+                elif isinstance(b, ast.Name) and 'integral' in b.id and b.id in sinks:
                     tgt, val = b.id, s.value
                 elif isinstance(b, ast.Attribute) and b.attr == 'integral':
                     tgt, val = norm(b), s.value
